@@ -44,6 +44,9 @@ type ShutCase struct {
 	Offset     int    // readerr: bytes of one more (partial) request frame delivered before the error; writeerr: bytes of further output allowed
 	PauseReads bool   // the client stops reading replies before the burst (blocks the server's writer on a rendezvous connection)
 	DupTag     int    // >0: that many further requests reuse the tag of a parked request right before the fault (each owed a duplicate-tag error the server may be unable to write)
+	// ClunkWaits: the file system's Clunk honours its context: the clunks issued by Stop return
+	// when that context is done (it is a cancelled context, so: at once)
+	ClunkWaits bool `json:",omitempty"`
 }
 
 var flightKinds = []string{"walk", "clone", "attach", "open", "opendir", "create", "read", "write", "stat", "wstat", "clunk", "remove", "walkinplace", "walkinplace", "stat", "read"}
@@ -82,6 +85,7 @@ func GenShut(t *rapid.T) ShutCase {
 	if rapid.IntRange(0, 3).Draw(t, "dup") == 0 {
 		c.DupTag = rapid.IntRange(1, 3).Draw(t, "ndup")
 	}
+	c.ClunkWaits = rapid.IntRange(0, 2).Draw(t, "clunkwaits") == 0
 	return c
 }
 
@@ -205,7 +209,14 @@ func RunShut(c ShutCase) harn.Result {
 			return nil
 		}
 		if _, ok := call.Ctx.(p9p.CancelledCtxt); ok {
-			// Stop's own clunks.  If slow handlers are waiting for it: let them run into the
+			// Stop's own clunks.
+			if c.ClunkWaits {
+				select {
+				case <-call.Ctx.Done():
+				case <-time.After(3 * shutBound):
+				}
+			}
+			// If slow handlers are waiting for it: let them run into the
 			// shared fid's lock now, while Stop is inside this fid's Clunk
 			if nHeld > 0 && call.Op == "clunk" && call.Handle != nil && int32(call.Handle.ID) == atomic.LoadInt32(&sharedHandle) {
 				gateOnce.Do(func() { close(h.gate) })
@@ -565,6 +576,9 @@ func RunShut(c ShutCase) harn.Result {
 	}
 	if pause {
 		res.Classes = append(res.Classes, "client_not_reading")
+	}
+	if c.ClunkWaits {
+		res.Classes = append(res.Classes, "clunk_honours_stop_context")
 	}
 	return res
 }
